@@ -30,7 +30,7 @@ RULE = (
 ASSUMPTIONS = [
     "reference derivation checker / recogniser in vf/spec.py; regex leaves judged by CPython re.fullmatch",
     "inputs are at most 8 characters (text) / 4 bytes (binary); parser runs under a deterministic state budget, budget hits are counted as inconclusive",
-    "binary specs use fixed-width bit fields so byte-level terminals are aligned; text in binary specs is ASCII",
+    "binary specs use fixed-width bit fields so byte-level terminals are aligned; regexes in binary specs are ASCII",
 ]
 
 PREDS = [
@@ -60,8 +60,8 @@ def from_input(x: Any) -> dict[str, str]:
 def ingredients(draw: Any) -> dict[str, Any]:
     mode = draw(st.sampled_from(["text", "text", "bin"]))
     sw = {"mode": mode}
+    sw["non_ascii"] = draw(st.integers(0, 3)) == 0
     if mode == "text":
-        sw["non_ascii"] = draw(st.integers(0, 4)) == 0
         sw["empty_literal"] = draw(st.integers(0, 4)) == 0
     spec = draw(specgen.grammars(sw))
     names = [r[0] for r in spec["rules"]]
@@ -72,6 +72,9 @@ def ingredients(draw: Any) -> dict[str, Any]:
         "alpha": alpha,
         "idx": draw(st.lists(st.integers(0, 10**6), min_size=1, max_size=10)),
         "fuzz_seeds": draw(st.lists(st.integers(0, 10**6), min_size=0, max_size=3)),
+        "controlflow_first": draw(st.lists(st.booleans(), min_size=12, max_size=12)),
+        "latin1": draw(st.booleans()),
+        "as_tree": draw(st.lists(st.sampled_from(["no", "no", "leaf", "bits"]), min_size=12, max_size=12)),
         "edits": draw(st.lists(perturb_strategies(), min_size=8, max_size=8)),
         "random": draw(st.lists(st.text(alphabet=alpha, max_size=6), max_size=4)) if mode == "text"
         else [b.hex() for b in draw(st.lists(st.binary(max_size=3), max_size=4))],
@@ -96,8 +99,16 @@ def build_case(ing: dict[str, Any]) -> dict[str, Any]:
     for w, ed in zip(base[:8], ing["edits"]):
         inputs.append(apply_edits(w, ed, ing["alpha"]))
     inputs += ing["random"] if mode == "text" else [bytes.fromhex(h) for h in ing["random"]]
+    if mode == "bin" and ing["latin1"]:
+        # near-miss class: the Latin-1 instead of the UTF-8 encoding of non-ASCII text
+        for w in base[:6]:
+            try:
+                inputs.append(w.decode("utf-8").encode("latin-1"))
+            except (UnicodeDecodeError, UnicodeEncodeError):
+                pass
     return {"spec": spec, "start": start, "inputs": [from_input(x) for x in inputs],
-            "n_orig": len(base), "pred": ing["pred"]}
+            "n_orig": len(base), "pred": ing["pred"], "controlflow_first": ing["controlflow_first"],
+            "as_tree": ing["as_tree"]}
 
 
 def fandango_words(spec: dict[str, Any], start: str, seeds: list[int], mode: str) -> list[Any]:
@@ -118,6 +129,19 @@ def fandango_words(spec: dict[str, Any], start: str, seeds: list[int], mode: str
         if len(w) <= (8 if mode == "text" else 4):
             out.append(w)
     return out
+
+
+def _as_tree(inp: Any, how: str) -> Any:
+    """The same input handed over as a DerivationTree (one leaf, or one leaf per bit)."""
+    if how == "no":
+        return inp
+    from fandango.language.symbols import NonTerminal, Terminal
+    from fandango.language.tree import DerivationTree
+
+    if how == "leaf" or isinstance(inp, str) or len(inp) == 0:
+        return DerivationTree(NonTerminal("<input>"), [DerivationTree(Terminal(inp))])
+    bits = "".join(f"{b:08b}" for b in inp)
+    return DerivationTree(NonTerminal("<input>"), [DerivationTree(Terminal(int(c))) for c in bits])
 
 
 def _depth(t: Any) -> int:
@@ -142,9 +166,14 @@ def check_case(case: dict[str, Any], ctx: Any = None) -> list[str]:
         inp = to_input(ci)
         units = S.input_to_units(inp, mode)
         in_lang = sem.recognise(units, start)
+        cf = case.get("controlflow_first") or []
         try:
             with Fuel():
-                trees = list(itertools.islice(f.grammar.parse_forest(inp, start=f"<{start}>"), 12))
+                if cf and cf[i % len(cf)]:
+                    # an earlier request for the same word that asked for control-flow nodes
+                    list(itertools.islice(f.grammar.parse_forest(inp, start=f"<{start}>", include_controlflow=True), 12))
+                at = (case.get("as_tree") or ["no"])[i % len(case.get("as_tree") or ["no"])]
+                trees = list(itertools.islice(f.grammar.parse_forest(_as_tree(inp, at), start=f"<{start}>"), 12))
         except FuelExhausted:
             if ctx is not None:
                 ctx.count("inconclusive_fuel")
